@@ -517,6 +517,9 @@ func runSessionFamily(env *pipeline.Env, fam SessFamily, tier string, seed int64
 		}
 		return pairRole(behs[i]) < pairRole(behs[j])
 	})
+	if only != "" && len(behs) == 0 {
+		return nil, fmt.Errorf("replay bundle names behaviour %q, which the current specification does not enumerate (stale bundle: behaviours are numbered per specification version)", only)
+	}
 	rep.Behaviours = len(behs)
 	rep.Shapes = len(used)
 	rep.RandomBehaviours = rep0Random
